@@ -28,7 +28,7 @@ CHECKS = {
             "Trusts synctest's fake clock (timers fire at exact instants), the oracle's re-implementation of the documented formula, the wire codec.",
             "virtual-time schedule oracle on timer object and on end-to-end leave instants", "DESIGN.md §3 C06"),
     "C18": ("E2-rig", "exploration",
-            "Runtime monitor: for five allowlists x 13 advertised-address classes (incl. v4-mapped, absent, malformed lengths) x 5 prior states of the name x 9 carriers (UDP alive from allowed/disallowed/unparsable source, compound, compressed, push/pull join/non-join, join from a disallowed host) a higher-incarnation alive claim is injected into a real node; after each step the subject record, and periodically every record / Members() entry / event, must satisfy an independent net/netip predicate, and disallowed claims must leave record, member count, event count (and, for disallowed sources, the queue) unchanged. Positive control counted.",
+            "Runtime monitor: for seven allowlists (two with prefixes that do not end on a byte boundary and outside addresses differing in the very next bit) x 13 advertised-address classes (incl. v4-mapped, absent, malformed lengths) x 5 prior states of the name x 9 carriers (UDP alive from allowed/disallowed/unparsable source, compound, compressed, push/pull join/non-join, join from a disallowed host) a higher-incarnation alive claim is injected into a real node; after each step the subject record, and periodically every record / Members() entry / event, must satisfy an independent net/netip predicate, and disallowed claims must leave record, member count, event count (and, for disallowed sources, the queue) unchanged. Positive control counted.",
             "Trusts net/netip, the wire codec, verif accessors. Empty allowlist = allow-all is a code convention outside the property (not generated).",
             "invariant monitor with independent CIDR predicate over injected claims", "DESIGN.md §3 C18"),
     "C04": ("E1-simnet", "exploration",
@@ -40,7 +40,7 @@ CHECKS = {
             "Trusts synctest virtual time, the bound formula (loose by design), 200 ms poll granularity for alive-acceptance tracking (conservative direction), the real-time stall threshold of 90 s (only used to detect a wedged process).",
             "bounded-liveness oracle + pace/schedule monitors on tap and logs (virtual time)", "DESIGN.md §3 C03"),
     "C05": ("E1-simnet (fault-scenario engine)", "exploration",
-            "Runtime monitor of bounded progress in virtual time: PRNG fault scripts (loss, duplication, delay/reordering, partitions, one-way blocks, crashes, hung processes, unreachable hosts, same-address restarts incl. veteran ones that had raised their incarnation several times, address take-over by another name, leaves, metadata updates) on real clusters; at T_stop the stated connectivity precondition is evaluated on Members(); judged scenarios must reach 'every live node lists exactly the live nodes with the owner's current metadata, suspects nobody live, lists nobody crashed or departed' within the settle bound (re-checked to 4x). A deterministic classifier names each failure; one failure family is a registered known finding with four narrowly matched histories (C05/bridge-only-suspect - reproduced by a scripted state-triggered scenario on every run -, C05/bridge-lost-to-inflight-probe, C05/bridge-lost-to-stale-suspicion, C05/bridge-suspicion-never-heard), every other failure is a VIOLATION.",
+            "Runtime monitor of bounded progress in virtual time: PRNG fault scripts (loss, duplication incl. stale copies up to 40 s late, delay/reordering, stream cuts, partitions, one-way blocks, crashes, hung processes, unreachable hosts, same-address restarts incl. veteran ones that had raised their incarnation several times, address take-over by another name, leaves, metadata updates) on real clusters; at T_stop the stated connectivity precondition is evaluated on Members(); judged scenarios must reach 'every live node lists exactly the live nodes with the owner's current metadata, suspects nobody live, lists nobody crashed or departed' within the settle bound (re-checked to 4x). A deterministic classifier names each failure; one failure family is a registered known finding with four narrowly matched histories (C05/bridge-only-suspect - reproduced by a scripted state-triggered scenario on every run -, C05/bridge-lost-to-inflight-probe, C05/bridge-lost-to-stale-suspicion, C05/bridge-suspicion-never-heard), every other failure is a VIOLATION (a split although two nodes of different final components held each other alive at T_stop is never excused); at rest no node may hold a push/pull slot.",
             "Trusts synctest, the simulated network (datagrams drop/dup/delay/reorder; TCP dials retransmit the SYN with exponential backoff), the settle bound formula.",
             "bounded-convergence oracle over fault scripts (virtual time) with finding classifier", "DESIGN.md §3 C05"),
     "C07": ("E1-simnet + E2-rig (event monitor attached everywhere)", "exploration",
